@@ -207,8 +207,13 @@ func c17() {
 	// crash points at system-call granularity: the process dies on entering its n-th write/rename/... (strace delivers
 	// SIGKILL there), i.e. right after everything before it took effect - e.g. between the last write and the rename,
 	// or between the rename and what follows it
-	for n := 1; n <= run.N(90, 400); n++ {
+	for n := 1; n <= run.N(140, 400); n++ {
 		hists = append(hists, hist{kind: "crash-on-entering-nth-write-or-rename", k: n})
+	}
+	// the same crash points in a run on a binary that has replaced, at the same path, the one an earlier complete run was
+	// made for: whatever that earlier run left in the cache directory is there when the run on the new binary dies
+	for n := 1; n <= run.N(140, 400); n++ {
+		hists = append(hists, hist{kind: "binary-replaced-then-crash-on-entering-nth-write-or-rename", k: n})
 	}
 	// resource limits: the profiler's file size limit stops the cache write (SIGXFSZ or EFBIG) at K bytes; few descriptors
 	for _, k := range []int{1, 64, 100, 4096, 10000, 65536, 100000, 200000, total - 10, total + 10} {
@@ -483,6 +488,15 @@ func c17() {
 			step(vlib.ToolRun{Argv: argv(target), FakeMode: "emit", Listing: fx.listA, Strace: []string{"-f", "-e", "trace=" + set, "-e", fmt.Sprintf("inject=%s:signal=KILL:when=%d", set, h.k)}},
 				fmt.Sprintf("run 1: SIGKILL on entering the %d-th write/rename/unlink/fsync of a thread", h.k))
 			run.Count("syscall_granular_crash_points", 1)
+		case "binary-replaced-then-crash-on-entering-nth-write-or-rename":
+			step(vlib.ToolRun{Argv: argv(target), FakeMode: "emit", Listing: fx.listA}, "run 1: normal, binary A")
+			copyFile(target, fx.binB)
+			wantProfile, finalListing = coldB, fx.listB
+			steps = append(steps, "binary at the same path replaced by B")
+			set := "write,rename,renameat,renameat2,fsync,ftruncate,unlink,unlinkat"
+			step(vlib.ToolRun{Argv: argv(target), FakeMode: "emit", Listing: fx.listB, Strace: []string{"-f", "-e", "trace=" + set, "-e", fmt.Sprintf("inject=%s:signal=KILL:when=%d", set, h.k)}},
+				fmt.Sprintf("run 2 on B: SIGKILL on entering the %d-th write/rename/unlink/fsync of a thread", h.k))
+			run.Count("syscall_granular_crash_points_after_binary_replacement", 1)
 		case "file-size-limit":
 			step(vlib.ToolRun{Argv: append([]string{"/usr/bin/prlimit", fmt.Sprintf("--fsize=%d", h.k)}, argv(target)...), FakeMode: "emit", Listing: fx.listA}, fmt.Sprintf("run 1: RLIMIT_FSIZE=%d bytes", h.k))
 		case "file-size-limit-lenient-tool":
